@@ -30,7 +30,7 @@ COMPONENTS = {
     "stub": ["physical storage (batches of cards)", "auditors fetching by (batch, position)", "manifest spreadsheet"],
 }
 PROBES = ["empty batch crossed", "phantom batch hit", "leading empty batch", "trailing empty batch", "manifest larger than bound",
-          "manifest smaller than CVR count", "single batch", "whole range sampled"]
+          "manifest smaller than CVR count", "single batch", "whole range sampled", "phantom CVR in CVR-driven lookup"]
 
 
 def generate(rng, tier):
@@ -55,8 +55,10 @@ def generate(rng, tier):
     rng.shuffle(sample)
     if mode == "subset" and sample:
         sample = sample[: rng.randint(1, len(sample))]
+    n_ph = max(0, bound - total)
+    n_list = total + n_ph  # the CVR list a comparison audit samples from: one CVR per card, then phantom CVRs
     return {"vendor": vendor, "batches": batches, "bound": bound, "n_cvrs": n_cvrs, "sample": sample,
-            "cvr_sample": rng.sample(range(total), rng.randint(0, min(total, 12))) if total else []}
+            "cvr_sample": rng.sample(range(n_list), rng.randint(0, min(n_list, 12))) if n_list else []}
 
 
 def raw_manifest(case):
@@ -190,6 +192,9 @@ def execute(case):
             for p in range(1, b["n"] + 1):
                 cid = f"{b['tab']}-{b['batch']}-{p}" if vendor == "dominion" else f"{b['batch']}_{p}"
                 cvrs.append(ns.CVR(id=cid, votes={}, card_in_batch=p))
+        for k in range(max(0, bound - total)):
+            cvrs.append(ns.CVR(id=f"phantom-1-{k + 1}", votes={}, phantom=True))
+        cs = [i for i in cs if i < len(cvrs)]
         try:
             with W.quiet():
                 cards2, order2, cvr_sample, ph2 = V.sample_from_cvrs(cvrs, man, list(cs))
@@ -203,10 +208,13 @@ def execute(case):
             if order2.get(cvrs[s].id, {}).get("selection_order") != i:
                 out.violate("C17.d", f"{vendor}/selection-order", f"CVR {cvrs[s].id} drawn {i}-th has selection order {order2.get(cvrs[s].id)}")
                 break
-        if sorted(c[5 if vendor == 'dominion' else 3] for c in cards2) != sorted(cvrs[i].id for i in cs):
+        if sorted(c[5 if vendor == 'dominion' else (3 if len(c) == 4 else 4)] for c in cards2) != sorted(cvrs[i].id for i in cs):
             out.violate("C17.d", f"{vendor}/ids", "identifiers on the retrieval list do not match the sampled CVRs")
-        if ph2:
-            out.violate("C17.d", f"{vendor}/phantoms", "phantom manual records for real CVRs")
+        want_ph = sorted(cvrs[i].id for i in cs if cvrs[i].phantom)
+        if want_ph:
+            out.probe("phantom CVR in CVR-driven lookup")
+        if sorted(m.id for m in ph2) != want_ph or any(not m.phantom for m in ph2):
+            out.violate("C17.d", f"{vendor}/phantoms", f"phantom manual records {sorted(m.id for m in ph2)[:5]} for sampled phantom CVRs {want_ph[:5]}")
         out.ev("cvr_lookup", [c.id for c in cvr_sample])
     return out
 
